@@ -402,7 +402,11 @@ func (rc *runCtx) runSpec(specPath string, evPath string) int {
 				continue
 			}
 			seen[key] = true
-			rp := filepath.Join(verifDir, "evidence", "replay", fmt.Sprintf("%s-%s-%d.json", spec.Property, hs.Func, len(rc.replayFiles)))
+			rpDir := filepath.Join(verifDir, "evidence", "replay")
+			if d := os.Getenv("GOSYM_REPLAY_DIR"); d != "" { // runs against scratch trees (seeded changes) keep their replay files apart
+				rpDir = d
+			}
+			rp := filepath.Join(rpDir, fmt.Sprintf("%s-%s-%d.json", spec.Property, hs.Func, len(rc.replayFiles)))
 			writeReplay(rp, &spec, specDir, v)
 			rc.replayFiles = append(rc.replayFiles, rp)
 			confirmed, out := true, ""
